@@ -24,6 +24,7 @@ EXPLANATION = (
   " (STATE-alias / STATE-global) no function of the anchored modules mutates a module- or class-level container, rebinds module / class state or mutates a mutable default argument, so a result never depends on earlier calls;"
   " (DEP-frame, body) as in C01;"
   " (MEMO-key) as in C03;"
+  ' (FIN-hull) as in C02: the content interval of a one-region document is the hull of its element intervals;'
 )
 RULE_TEXT = "per mutator call / mutating call argument, per copy_to variant x field, per early return, per module-level store"
 UNDECIDED = ["equality of cached and uncached results over all documents and times", "equality of repeated calls as values",
